@@ -35,9 +35,14 @@ static std::string run(std::vector<std::string> const &w)
 	if(w.size()==2 && w[0]=="probe") {
 		if(!g_probe.count(w[1])) return "bad-op";
 		probe_def &d=g_probe[w[1]];
-		server &s=g_farm.get(w[1]);
-		outcome o=play(s,d.segs,d.mode);
-		d.ref=o.reply; d.has_ref=true;
+		outcome o;
+		for(int attempt=0;attempt<5;attempt++) {
+			server &s=g_farm.get(w[1]);
+			o=play(s,d.segs,d.mode);
+			if(!o.reply.empty() && !o.connect_failed && !o.timeout) break;
+			s.restart=true; // could not talk to it: rebuild
+		}
+		d.ref=o.reply; d.has_ref=!o.reply.empty();
 		return "reply="+vh::hex(o.reply)+" flags="+flags(o);
 	}
 	if(w.size()>=3 && w[0]=="case") {
